@@ -91,3 +91,7 @@ Fixpoint find_mismatches {A} (chk : A -> bool) (l : list A) (i : nat) : list nat
   | [] => []
   | x :: r => if chk x then find_mismatches chk r (S i) else i :: find_mismatches chk r (S i)
   end.
+
+(* n, n+1, ..., n+k-1 *)
+Fixpoint zseq (n : Z) (k : nat) : list Z :=
+  match k with O => [] | S k' => n :: zseq (n + 1)%Z k' end.
